@@ -10875,7 +10875,8 @@ tmcg_openpgp_byte_t CallasDonnerhackeFinneyShawThayerRFC4880::SubpacketDecode
 	// The length includes the type octet but not this length. Its format
 	// is similar to the "new" format packet header lengths, but cannot
 	// have Partial Body Lengths.
-	uint32_t len = 0, headlen = 1;
+	uint32_t len = 0;
+	size_t headlen = 1; // not 32 bit: (headlen + len) must not wrap around
 	if (in[0] < 192)
 	{
 		// if the 1st octet <  192, then
